@@ -56,7 +56,7 @@ let show_sess (s : sess) : string =
   Printf.sprintf "%s%s%d.%d.%d.%s" (if s.live then "l" else "d") (show_phase s.ph)
     (int_of_nat (fstate_num s.lcp.fs)) (int_of_nat (fstate_num s.ipcp.fs)) (int_of_nat (fstate_num s.ip6cp.fs))
     (match s.pend with None -> "n" | Some k -> string_of_int (int_of_nat k))
-let run_pppoe (rep : vr) (flav : string) (toks : string list) : string =
+let run_pppoe (rt : bool) (rep : vr) (flav : string) (toks : string list) : string =
   match toks with
   | pool :: evs ->
     let st = ref (init (nat_of_int (int_of_string pool))) in
@@ -66,11 +66,16 @@ let run_pppoe (rep : vr) (flav : string) (toks : string list) : string =
       match event_of tok with
       | None -> "badev:" ^ tok
       | Some e ->
-        let (st', outs) = step rep !st e in
+        let st_before = !st in
+        let (st', outs) = (if rt then step_rt rep !st e else step rep !st e) in
         st := st';
         Array.iteri (fun i m -> match m with
           | None -> ()
           | Some m -> mons.(i) <- mon_run (nat_of_int i) [(e, outs)] m;
+            (* the teardown after a reject is a termination of that slot *)
+            (match mons.(i), reject_target rep st_before e with
+             | Some _, Some j when rt && int_of_nat j = i -> mons.(i) <- Some mon0
+             | _ -> ());
             if mons.(i) = None && !mon = "ok" then mon := "VIOLATION@" ^ string_of_int i) mons;
         let os = List.filter_map (fun (i, o) -> match show_out o with
           | None -> None
@@ -136,6 +141,9 @@ let run_ipoe (rep : bool) (toks : string list) : string =
          | _ -> ());
         let os = List.sort compare (List.map (fun ((i, g), o) ->
           string_of_int (int_of_nat i) ^ "." ^ string_of_int (int_of_nat g) ^ show_iout o) outs) in
+        let is_life t = String.length t >= 5 && String.sub t (String.length t - 5) 5 = "lifeA" in
+        let rec dedup = function a :: (b :: _ as r) when a = b && is_life a -> dedup r | a :: r -> a :: dedup r | [] -> [] in
+        let os = dedup os in
         String.concat "," os ^ "|" ^ String.concat "," (List.map show_islot st'.isl) ^ "|" ^
         string_of_int (List.length st'.p4.pfree) ^ "/" ^ string_of_int (List.length st'.p6.pfree)) evs in
     String.concat " ; " steps ^ " ; MON:" ^ (if !viol then "VIOLATION" else "ok")
@@ -158,6 +166,6 @@ let () =
     | "pppoe" :: rest ->
       let flav = flavour_of il in
       if flav <> "cur" && flav <> "rfc" then print_endline ("badflavour:" ^ flav) else
-      print_endline (try run_pppoe { vrep = rep; vrfc = (flav = "rfc") } flav rest with e -> "modelerr:" ^ Printexc.to_string e)
+      print_endline (try run_pppoe rep { vrep = true; vrfc = (flav = "rfc") } flav rest with e -> "modelerr:" ^ Printexc.to_string e)
     | "ipoe" :: rest -> print_endline (try run_ipoe rep rest with e -> "modelerr:" ^ Printexc.to_string e)
     | _ -> print_endline "badline") lines
